@@ -291,13 +291,20 @@ Theorem C16_session : forall keys steps,
 Proof. exact session_exact. Qed.
 Print Assumptions C16_session.
 
+(** the model is pure, so the literal loop "ask the same question n+1 times, keep the last answer"
+    ([repeat_last]) is one call: this is why a repeated block [QRepeat n s e m] of a session is
+    evaluated once, for any n (65536, 2^17, ...) *)
+Theorem C16_repeat_once : forall n sb s e m, repeat_last n sb s e m = CountPrefixes sb s e m.
+Proof. exact repeat_last_once. Qed.
+Print Assumptions C16_repeat_once.
+
 Example C16_session_nonvacuous :
   let keys := [[97]; [97;98;97]; [98;128]] in
-  let steps := [QCount 0 3 9; QShard 1; QFdb; QCount 0 3 9] in
+  let steps := [QCount 0 3 9; QShard 1; QFdb; QRepeat 65536 0 2 1; QCount 0 3 9] in
   keys <> [] /\ keys_ok keys /\ strict_asc keys /\ keys_i32 keys /\ Forall (step_ok keys) steps /\
   (exists sb, New keys = Some sb /\
      run_session keys sb steps =
-     Some [(6, [1;2;2;3;3;3;3;3;3]); (0, []); (0, [8; 6]); (6, [1;2;2;3;3;3;3;3;3])]).
+     Some [(6, [1;2;2;3;3;3;3;3;3]); (0, []); (0, [8; 6]); (8, [1]); (6, [1;2;2;3;3;3;3;3;3])]).
 Proof.
   cbv zeta.
   split; [discriminate|].
